@@ -231,6 +231,107 @@ def check_decorated(ctx):
                                                 "true_classes": len(by_code), "digest_classes": len(by_digest)})
 
 
+# ---- named symmetric graphs under systematic relabellings ------------------------
+
+def _named_graphs():
+    """(name, n, directed edge list). Undirected graphs are encoded symmetrically."""
+    def und(es):
+        return list(es) + [(b, a) for a, b in es]
+    out = []
+    pet = [(i, (i + 1) % 5) for i in range(5)] + [(5 + i, 5 + (i + 2) % 5) for i in range(5)] + [(i, i + 5) for i in range(5)]
+    out.append(("petersen", 10, und(pet)))
+    out.append(("circulant-C8(1,3)-directed", 8, [(i, (i + 1) % 8) for i in range(8)] + [(i, (i + 3) % 8) for i in range(8)]))
+    cyc = lambda off, k: [(off + i, off + (i + 1) % k) for i in range(k)]  # noqa: E731
+    out.append(("directed-C3+C4+C5", 12, cyc(0, 3) + cyc(3, 4) + cyc(7, 5)))
+    out.append(("2xC3-undirected", 6, und(cyc(0, 3) + cyc(3, 3))))
+    out.append(("C6-undirected", 6, und(cyc(0, 6))))
+    out.append(("K3,3", 6, und([(i, 3 + j) for i in range(3) for j in range(3)])))
+    out.append(("prism", 6, und(cyc(0, 3) + cyc(3, 3) + [(i, i + 3) for i in range(3)])))
+    out.append(("cube", 8, und([(i, i ^ b) for i in range(8) for b in (1, 2, 4) if i < i ^ b])))
+    out.append(("moebius-ladder-M8", 8, und(cyc(0, 8) + [(i, i + 4) for i in range(4)])))
+    out.append(("3xP3-undirected", 9, und([(0, 1), (1, 2), (3, 4), (4, 5), (6, 7), (7, 8)])))
+    out.append(("2xK3,3", 12, und([(i, 3 + j) for i in range(3) for j in range(3)] + [(6 + i, 9 + j) for i in range(3) for j in range(3)])))
+    out.append(("directed-2xC4", 8, cyc(0, 4) + cyc(4, 4)))
+    return out
+
+
+def _relabellings(n, full):
+    """Systematic family: identity, all cyclic shifts, reversal, and (full) all transpositions composed with a shift."""
+    ident = list(range(n))
+    perms = [ident]
+    for k in range(1, n):
+        perms.append([(i + k) % n for i in range(n)])
+    perms.append(list(reversed(ident)))
+    perms.append([(3 * i + 1) % n if n % 3 else (n - 1 - i) for i in range(n)])
+    if full:
+        for a in range(n):
+            for b in range(a + 1, n):
+                p = list(ident)
+                p[a], p[b] = p[b], p[a]
+                perms.append(p)
+                perms.append([(x + a + 1) % n for x in p])
+    return [p for p in perms if sorted(p) == ident]
+
+
+def build_named(n, edges, perm, scheme=0):
+    names = ["n%d" % i for i in range(n)] if scheme == 0 else ["N%032x" % (7919 * (i + 3)) for i in range(n)]
+    g = Graph(bind_namespaces="none")
+    es = [(perm[a], perm[b]) for a, b in edges]
+    if scheme:
+        es.reverse()
+    for a, b in es:
+        g.add((BNode(names[a]), P, BNode(names[b])))
+    return g
+
+
+def named_case(name, perm, scheme):
+    for nm, n, edges in _named_graphs():
+        if nm == name:
+            break
+    else:
+        raise ValueError(name)
+    g0 = build_named(n, edges, list(range(n)))
+    g = build_named(n, edges, perm, scheme)
+    if _digest(g) != _digest(g0) or not isomorphic(g0, g):
+        return ("isomorphic|false-for-isomorphic-graphs", {"graph": name})
+    if _canon_triples(g) != _canon_triples(g0):
+        return ("to_canonical_graph|isomorphic-inputs-give-different-graphs", {"graph": name})
+    both, first, second = graph_diff(g0, g)
+    if len(first) or len(second):
+        return ("graph_diff|isomorphic-graphs-have-nonempty-difference", {"graph": name, "first": len(first), "second": len(second)})
+    return None
+
+
+def _named_batch(cases):
+    out = []
+    for name, perm, scheme in cases:
+        v = named_case(name, perm, scheme)
+        if v:
+            out.append({"sig": v[0], "case": {"named": [name, perm, scheme]}, "detail": v[1]})
+    return out, len(cases)
+
+
+def check_named(ctx, full):
+    cases = []
+    for name, n, edges in _named_graphs():
+        for perm in _relabellings(n, full):
+            cases.append((name, perm, 0))
+            cases.append((name, perm, 1))
+    res = R.pmap(_named_batch, R.shards(cases, ctx.jobs * 4), ctx.jobs)
+    for viols, n in res:
+        ctx.extend(viols)
+        ctx.add("evaluations", n)
+        ctx.add("named_graph_relabellings", n)
+        ctx.add("distinct_nontrivial", n)
+    # pairwise non-isomorphism between the named 6-node cubic/regular pairs that colour refinement cannot separate
+    named = {nm: (n, e) for nm, n, e in _named_graphs()}
+    for a, b in (("2xC3-undirected", "C6-undirected"), ("K3,3", "prism"), ("cube", "moebius-ladder-M8")):
+        ga = build_named(named[a][0], named[a][1], list(range(named[a][0])))
+        gb = build_named(named[b][0], named[b][1], list(range(named[b][0])))
+        if isomorphic(ga, gb) or isomorphic(gb, ga):
+            ctx.violation("isomorphic|true-for-non-isomorphic-graphs", {"named_pair": [a, b]}, {})
+
+
 # ---- graph_diff over pairs --------------------------------------------------
 
 def diff_case(kind, n, m1, m2):
@@ -265,10 +366,11 @@ def _diff_batch(pairs):
 def run(ctx):
     thorough = ctx.tier == "thorough"
     classes3 = check_universe(ctx, "u1", 3)
-    if thorough:
-        check_universe(ctx, "u1", 4)
-    check_universe(ctx, "u2", 6 if thorough else 5)
+    check_universe(ctx, "u1", 4)
+    check_universe(ctx, "u2", 5)
+    check_universe(ctx, "u2", 6)
     check_decorated(ctx)
+    check_named(ctx, full=thorough)
     if thorough:
         masks = list(range(512))
         pairs = [("u1", 3, a, b) for a in masks for b in masks]
@@ -285,7 +387,7 @@ def run(ctx):
     ctx.add("evaluations", np_)
     ctx.cov["exhaustive"] = True
     ctx.cov["rule"] = ("Universes: u1 = every digraph with self-loops on n blank nodes, one predicate; u2 = every undirected simple graph on n blank "
-                       "nodes (symmetric encoding); u3 = u1(2) decorated with IRI/literal/second-predicate triples (<=3). rdflib's digest partition "
+                       "nodes (symmetric encoding); u3 = u1(2) decorated with IRI/literal/second-predicate triples (<=3); named symmetric graphs (Petersen, circulant, disjoint cycles, K3,3, prism, cube, Moebius ladder, ...) under a systematic family of relabellings. rdflib's digest partition "
                        "vs the true partition (min adjacency code over all permutations) decides every pair; each graph also relabelled+re-inserted; "
                        "graph_diff/isomorphic() on explicit pairs. distinct_nontrivial = graphs with a non-trivial automorphism (u1,u2) + decorated classes.")
     ctx.sample({"universe": ["u2", 5], "mask": 0b1111100000, "note": "undirected graph on 5 bnodes, edge bitmask over pairs i<j"})
@@ -337,6 +439,17 @@ def replay(ctx, case):
             if not isomorphic(g1, build(kind, n, m)):
                 viols.append({"sig": "isomorphic|false-for-isomorphic-graphs", "case": case, "detail": {"other_mask": m}})
                 break
+    elif "named" in case:
+        v = named_case(*case["named"])
+        if v:
+            viols.append({"sig": v[0], "case": case, "detail": v[1]})
+    elif "named_pair" in case:
+        named = {nm: (n, e) for nm, n, e in _named_graphs()}
+        a, b = case["named_pair"]
+        ga = build_named(named[a][0], named[a][1], list(range(named[a][0])))
+        gb = build_named(named[b][0], named[b][1], list(range(named[b][0])))
+        if isomorphic(ga, gb):
+            viols.append({"sig": "isomorphic|true-for-non-isomorphic-graphs", "case": case, "detail": {}})
     elif "decorated" in case:
         for row in _decor_batch([tuple(case["decorated"])]):
             mask, di, code, d, d2, ch, canon_same, sk_ok = row
